@@ -337,9 +337,15 @@ class Ceremony:
             w.op('sign', cid=c.cid, by='foreign')
             hk = self.BK.HDKey(self.xprv(rbip32.RefHDNode.from_seed(b'foreign key seed!')), network=self.network)
             fail = ch.coin('fail_on_unknown', 0.5)
+            n_sigs0 = sum(len(i.signatures) for i in c.t.inputs)
             ok, _ = self.call('sign_foreign', lambda: c.t.sign(hk, fail_on_unknown_key=fail))
             if ok:
                 self.add_holder(c)
+            if sum(len(i.signatures) for i in c.t.inputs) != n_sigs0 and getattr(c, 'parsed', False):
+                # a parsed input without script data lists no keys: the library adopts whatever key is offered.  From
+                # here on the copy carries a signature of a key outside the real key set - an edited copy
+                w.probe('foreign_signature_adopted_by_parsed_copy')
+                c.tampered = True
         if ok and c.context_tampered:
             c.resigned = True
         if ok and isinstance(c.t, self.BW.WalletTransaction):
